@@ -108,6 +108,7 @@ class Pricing:
         P = ctx.P
         self.f = f
         self.T = Translator(P)
+        self.T.lenient = True     # the spread component is only needed by C06.I2
         self.x, self.y, self.a, self.c = (self.T.var(n) for n in ("x", "y", "a", "c"))
         env = {("param", f.path, i): v for i, v in enumerate((self.x, self.y, self.a, self.c))}
         ex = common.exit_sites(P, f)
@@ -116,6 +117,8 @@ class Pricing:
         comps = self.T.components(ex[0][3], env)
         if comps is None or len(comps) != 3:
             raise Unsupported("pricing function does not return a 3-tuple")
+        if comps[0] is None or comps[2] is None:
+            raise Unsupported("cannot interpret the return / commission component of the pricing function")
         self.n, self.s, self.k = comps
         self.ideal = self.y * self.a / (self.x + self.a)
         self.beta = RF.var("beta")          # commission rate in [0,1]; c = D*beta
